@@ -24,7 +24,7 @@ static std::string slurp(fs::path const& p) { std::ifstream f(p, std::ios::binar
 static std::shared_ptr<quill::Sink> file_sink(std::string const& f) { return quill::Frontend::create_or_get_sink<quill::FileSink>(f, []() { quill::FileSinkConfig c; c.set_open_mode('w'); return c; }()); }
 static int child(int k, bool shared, bool sleepy, std::string const& dir)
 {
-  alarm(40);
+  alarm(120);
   quill::BackendOptions bo; bo.sleep_duration = sleepy ? std::chrono::microseconds{50000} : std::chrono::microseconds{0}; bo.sink_min_flush_interval = std::chrono::milliseconds{60000};
   quill::Backend::start(bo);
   std::string problems; std::string shared_file = dir + "/shared.log", want_shared;
